@@ -268,6 +268,9 @@ def jobs(tier):
                 add('n=4,%s,conserved,bottleneck' % tag, n=4, edges=pat, sources=[0], sinks=[3], scheme='bottleneck',
                     conserved=True)
     add('n=4,01121323,bottleneck', n=4, edges=[(0, 1), (1, 2), (1, 3), (2, 3)], sources=[0], sinks=[3], scheme='bottleneck')
+    # a second route that re-uses an edge of the first path (ties on the path minimum decide which single edge is removed)
+    add('n=4,01021223,bottleneck', n=4, edges=[(0, 1), (0, 2), (1, 2), (2, 3)], sources=[0], sinks=[3], scheme='bottleneck')
+    add('n=4,0102121323,bottleneck', n=4, edges=[(0, 1), (0, 2), (1, 2), (1, 3), (2, 3)], sources=[0], sinks=[3], scheme='bottleneck')
     if q:
         for pat in ([(0, 1), (0, 2), (1, 3), (2, 3)], [(0, 1), (0, 2), (1, 2), (1, 3), (2, 3)]):
             tag = ''.join('%d%d' % e for e in pat)
